@@ -14,13 +14,15 @@ CONSTANTS Algos,     \* sequence of [algo |-> name, defs |-> Seq(def)]
 \* the user values tried for a parameter definition
 Choices(d) ==
   {Absent} \cup
-  CASE d.type = "int" /\ d.values = <<>>   -> {IntV(3), StrV("4", "int", 8), StrV("abc", "none", 0), StrV("2.5", "float", 5)}
+  CASE d.type = "int" /\ d.values = <<>>   -> {IntV(3), StrV("4", "int", 8), StrV("abc", "none", 0), StrV("2.5", "float", 5),
+                                               IntV(0), StrV("0", "int", 0), StrV("", "none", 0)}
     [] d.type = "int"                      -> {d.values[Len(d.values)], StrV("1", "int", 2), IntV(77), StrV("77", "int", 154)}
-    [] d.type = "float" /\ d.values = <<>> -> {FloatH(5), StrV("1.5", "float", 3), IntV(2), StrV("3", "int", 6), StrV("abc", "none", 0)}
+    [] d.type = "float" /\ d.values = <<>> -> {FloatH(5), StrV("1.5", "float", 3), IntV(2), StrV("3", "int", 6), StrV("abc", "none", 0),
+                                               FloatH(0), StrV("0", "int", 0), StrV("", "none", 0)}
     [] d.type = "float"                    -> {d.values[1], FloatH(77), StrV("abc", "none", 0), StrV("77", "int", 154), IntV(77),
                                                StrV("1.5", "float", 3), StrV("2.5", "float", 5)}
     [] d.type = "str" /\ d.values = <<>>   -> {StrV("hello", "none", 0), StrV("7", "int", 14), IntV(3)}
-    [] OTHER                               -> {d.values[Len(d.values)], d.values[1], StrV("ZZ", "none", 0), IntV(3)}
+    [] OTHER                               -> {d.values[Len(d.values)], d.values[1], StrV("ZZ", "none", 0), IntV(3), StrV("", "none", 0)}
 
 RECURSIVE Givens(_)
 Givens(defs) == IF defs = <<>> THEN {<<>>}
